@@ -616,7 +616,7 @@ class Emitter:
         name = 'agg%d' % len(self.aggs)
         self.aggs[key] = 'struct ' + name
         r = self.L.resolve(ty)
-        if ty[0] == 'named' and ty[1].startswith('%union.') and r[0] == 'struct':
+        if ty[0] == 'named' and ty[1].startswith('%union.') and r[0] == 'struct' and not __import__('os').environ.get('LL2C_NO_UNIONBYTES'):
             # C/C++ unions (std::string's {capacity | local buffer}): LLVM models them as the largest member plus padding.
             # Emit plain bytes so that character stores into the buffer are array updates, not updates of a 64-bit field.
             sz, al = self.L.size_align(ty)
@@ -863,8 +863,9 @@ class Emitter:
         if g['init'] is None:
             # external data: give it a zeroed body large enough (typeinfo vtables etc.)
             sz = max(self.L.size_align(g['type'])[0], 64)
-            return 'uint8_t %s_store[%d] __attribute__((aligned(16))); /* external */\n#define %s (*(%s*)%s_store)' % (
-                cname(g['name']), sz, cname(g['name']), ct, cname(g['name']))
+            # external data (libstdc++ vtables, typeinfo, locale ids ...): a zeroed stand-in under CBMC; the REAL symbol in the native builds
+            return ('#ifdef __CPROVER__\nuint8_t %s_store[%d] __attribute__((aligned(16))); /* external */\n#else\nextern uint8_t %s_store[] __asm__("%s");\n#endif\n'
+                    '#define %s (*(%s*)%s_store)') % (cname(g['name']), sz, cname(g['name']), g['name'][1:].strip('"'), cname(g['name']), ct, cname(g['name']))
         init = self.const_init(g['type'], g['init'])
         return 'static %s %s = %s;' % (ct, cname(g['name']), init)
 
@@ -1620,7 +1621,7 @@ class FnEmitter:
                 # symbolic length: CBMC's built-in model allocates a symbolic-size array (solver blow-up); use a byte loop instead
                 return ['ll_memmove_dyn(%s, %s, %s);' % (argv[0], argv[1], argv[2])]
             cn = I['args'][2][1][1]
-            if 0 < cn <= 24:
+            if 0 < cn <= 24 and not __import__('os').environ.get('LL2C_NO_UNROLL'):
                 # small constant length: explicit byte moves (read all, then write all = memmove semantics); CBMC's built-in
                 # memcpy on a destination with a symbolic offset is far more expensive
                 self.tmpn += 1
